@@ -373,7 +373,20 @@ def _fixture_case(case, mon, sigs, hist, metrics):
         return t, fb.q_mirror(t, fsg)
     A, B = np.array(ma.matrix, float), np.array(mb.matrix, float)
     straddles = 0
-    tolc = 1e-6 if fit == "taubinSVD" else 5e-4          # SE arcs are noisy: the two independent dlite fits differ more
+    tolc0 = 1e-6 if fit == "taubinSVD" else 5e-4         # SE arcs are noisy: the two independent dlite fits differ more
+
+    def tol_of(c):
+        """floor measured on the shipped meshes, raised to the precision class of the fit for this interface in either pose
+        (bulge angle estimated from the sagitta; a far-away origin and a nearly straight interface both cost digits)"""
+        e = tolc0
+        for frame, m in ((fa, ma), (fb_, mb)):
+            z = np.array([complex(frame.vertices[i].x, frame.vertices[i].y) for i in m.big_edges_to_use[c]])
+            ch = z[-1] - z[0]
+            if len(z) > 2 and abs(ch) > 0:
+                dev = np.abs(((z - z[0]).conjugate() * ch).imag).max() / abs(ch) ** 2
+                e = max(e, fb.eps_class(fit, 2 * np.arctan(2 * dev), len(z), float(np.abs(z).max() / abs(ch))))
+        return e
+    tols = {}
     obs = 0.0
     for vid, row in ma.map_vid_to_row.items():
         for c in range(A.shape[1]):
@@ -381,6 +394,9 @@ def _fixture_case(case, mon, sigs, hist, metrics):
             if ca == 0 and cb == 0:
                 continue
             mon.count("coefficients:compared")
+            if c not in tols:
+                tols[c] = tol_of(c)
+            tolc = tols[c]
             if abs(cb - R(ca)) <= tolc:
                 obs = max(obs, abs(cb - R(ca)))
                 continue
